@@ -86,7 +86,7 @@ RunR(r, src, ops, i, next, acc) ==
   ELSE LET a == XRApply(r, src, ops[i], next) IN
        RunR(a.r, a.src, ops, i + 1, a.next, Append(acc, [ret |-> a.ret, runs |-> a.runs, res |-> a.res, contig |-> a.contig]))
 
-Valid(e) == e.stream.trunc.kind = "none"
+Valid(e) == e.stream.trunc.kind = "none" /\ e.stream.srcok     \* complete output of a writer use that closed without error, or a reference stream
 R_RoundTrip(e) ==
   /\ e.eq /\ e.total <= e.plen
   /\ \A i \in DOMAIN e.ops : e.ops[i].op \in {"read", "drain"} => e.ops[i].ret <= e.ops[i].n * e.ops[i].calls
